@@ -94,7 +94,11 @@ int wrapped_main(int argc, char *argv[])
       /* argv[0] can be NULL, you can achieve this with exec(). */
       progname = "bbcbasic_to_text";
     }
-  assert(set_dialect(default_dialect_name, &dialect)); /* set the default */
+  if (!set_dialect(default_dialect_name, &dialect)) /* set the default */
+    {
+      fprintf(stderr, "the default dialect %s is not known\n", default_dialect_name);
+      return 1;
+    }
   int opt;
   while ((opt=getopt_long(argc, argv, "+d:D:l:", opts, &longindex)) != -1)
     {
